@@ -538,6 +538,10 @@ func (parser *Parser) ParseExpression(depth int) (res Sexp, err error) {
 				}
 			}
 		}
+		if tok.str == "nil" {
+			// nil is the null value, also when read as data
+			return SexpNull, nil
+		}
 		return env.MakeSymbol(tok.str), nil
 	case TokenSymbolColon:
 		sym := env.MakeSymbol(tok.str)
